@@ -1,3 +1,4 @@
+mod binsuite;
 mod capture;
 mod cfgsuite;
 mod clisuite;
@@ -41,6 +42,7 @@ fn run_cases(cases: &str, out: &str, dir: &str) {
             "pair" => pairsuite::run_pair(&toks, &dir, &mut cap),
             "conc" => concsuite::run_conc(&toks, &dir),
             "cli" => clisuite::run_cli(&toks, &dir),
+            "bin" => binsuite::run_bin(&toks, &dir),
             "cfg" => cfgsuite::run_cfg(&toks),
             "cfgperm" => cfgsuite::run_cfgperm(&toks),
             "ccfg" => cfgsuite::run_ccfg(&toks),
